@@ -567,6 +567,7 @@ func (c *Context) Sqrt(d, x *Decimal) (Condition, error) {
 	if err := ed.Err(); err != nil {
 		return 0, err
 	}
+	verifTape("sqrt.iter", 0, &approx)
 
 	d.Set(&approx)
 	d.Exponent += int32(e / 2)
